@@ -99,6 +99,7 @@ type Trace struct {
 	A1, A2, A3   int64
 	Tox          float32
 	Active       []bool     // per start: did the draw select the toxic?
+	DrawUsed     []bool     // per start: did the stub consume the scripted draw at all?
 	Inputs       []Emission // chunks handed to the stub: At = time the sender offered it, Ts = stamp
 	AcceptedAt   []int64
 	Out          []Emission
@@ -251,6 +252,8 @@ func (e *Engine) episode(ops []string, res *report.Result) *report.Failure {
 			line = "start " + frac(d)
 			exec = func() {
 				vrand.SetFloat(d)
+				fc0 := vrand.FCalls
+				defer func() { synctest.Wait(); tr.DrawUsed = append(tr.DrawUsed, vrand.FCalls > fc0) }()
 				p.running.Add(1)
 				if p.intr != "p" {
 					p.intr = "-"
@@ -383,6 +386,14 @@ func (e *Engine) episode(ops []string, res *report.Result) *report.Failure {
 		p.curOp.Store(int32(i))
 		exec()
 		synctest.Wait()
+		if w[0] == "start" && tr.Tox > 0 && tr.Tox < 1 && len(tr.DrawUsed) > 0 && !tr.DrawUsed[len(tr.DrawUsed)-1] {
+			// the stub did not take its decision from math/rand's package-level source: the
+			// scripted draw means nothing to this code, nothing after this point can be compared
+			// (the tie is broken; the independence probe of E3 looks for a failing input)
+			result = fail(i, "disagreement", "", "one draw from math/rand (Float32) per start of a stub", "none",
+				"ToxicStub.Run does not draw its toxicity decision from math/rand's package-level source", "e2:rand-source")
+			break
+		}
 		if !sinkOn && w[0] != "sink" {
 			tr.SinkAlways = false
 		}
